@@ -46,7 +46,7 @@ FUNC_KINDS_T = {"NEG", "NOT", "PAREN", "OR", "AND", "CMP", "ADD", "MUL"}
 def consts(**kw):
     c = dict(MaxOps=3, KindsM=ALL_KINDS, CmpOpsM={1}, LogSpM={2}, WithFunc=False, WithList=False, TypedM=False,
              Ladder="lark", AndOrParens=True, CmpParens=True, OuterRule="matched", DenoteLadder="ms",
-             AllCmpOps=set(exprtok.CMP_OPS), RootCmpOps={i for i in exprtok.CMP_OPS if i <= 19}, AllLogSp={1, 2, 3}, AtomIds=set(exprtok.ATOMS), ListIds=set(exprtok.LISTS), **exprtok.TRICKY,
+             AllCmpOps=set(exprtok.CMP_OPS), RootCmpOps={i for i in exprtok.CMP_OPS if i <= 19}, AllLogSp={1, 2, 3}, AtomIds=set(exprtok.ATOMS), ListIds=set(exprtok.LISTS), TrickyMaxOps=3, **exprtok.TRICKY,
              FuncIds=set(exprtok.FUNCS), MaxWalkOps=12, RootKindsS=set())
     c.update(kw)
     return c
@@ -71,12 +71,9 @@ def model_jobs(quick):
     jobs = [
         ("m_contract", "contract", CONTRACT_INVS, dict(MaxOps=3 if quick else 4)),
         ("m_contract_func", "contract", CONTRACT_INVS, dict(MaxOps=3, KindsM=fk, WithFunc=True)),
-        ("m_contract_deep", "contract", CONTRACT_INVS, dict(deep)),
         ("m_contract_list", "contract", CONTRACT_INVS,
-         dict(MaxOps=3, KindsM={"PAREN", "CMP", "ADD"}, WithList=True)),
+         dict(MaxOps=2 if quick else 3, KindsM={"PAREN", "CMP", "ADD"}, WithList=True)),
         ("m_neg_wrapped", "negative", ["Wrapped"], dict(MaxOps=3, **mech)),
-        ("m_neg_stable", "negative", ["Stable"], dict(MaxOps=3, **mech)),
-        ("m_neg_regroup", "negative", ["NoRegroup"], dict(deep, **mech)),
         ("m_neg_regroup_func", "negative", ["NoRegroup"], dict(MaxOps=3, KindsM=FUNC_KINDS, WithFunc=True, **mech)),
         ("m_neg_swapped", "negative", ["NoRegroup"], dict(MaxOps=2, Ladder="swapped")),
         # (with the contract's `expression` rule the parentheses and_test/or_test/comparison add are
@@ -87,7 +84,10 @@ def model_jobs(quick):
          dict(MaxOps=3, KindsM={"PAREN", "CMP"}, WithFunc=True, OuterRule="startsends", CmpParens=False)),
     ]
     if not quick:
-        jobs += [("m_contract_spellings", "contract", CONTRACT_INVS,
+        jobs += [("m_contract_deep", "contract", CONTRACT_INVS, dict(deep)),
+                 ("m_neg_stable", "negative", ["Stable"], dict(MaxOps=3, **mech)),
+                 ("m_neg_regroup", "negative", ["NoRegroup"], dict(deep, **mech)),
+                 ("m_contract_spellings", "contract", CONTRACT_INVS,
                   dict(MaxOps=3, CmpOpsM={1, exprtok.PCT_OP}, LogSpM={1, 2, 3})),
                  ("m_contract_func4", "contract", CONTRACT_INVS,
                   dict(MaxOps=4, KindsM={"PAREN", "NEG", "ADD", "MUL"}, WithFunc=True))]
@@ -307,9 +307,11 @@ class Batch:
         if tr.get("ops", 0) <= self.all_hosts_upto or idx % 10 == 0:
             return list(range(n))
         a = (idx + self.ck.seed) % n
-        return sorted({(a + j * (1 + (idx // n) % (n - 1))) % n for j in range(self.per_tree)})
+        k = max(1, self.per_tree - 1) if tr.get("lm") in (3, 4, 5) and self.tag_origin != "walks" else self.per_tree
+        return sorted({(a + j * (1 + (idx // n) % (n - 1))) % n for j in range(k)})
 
     def process(self, trees, origin, part):
+        self.tag_origin = origin        # (walks carry their size in `lm`)
         ck, st = self.ck, self.stats
         seed = ck.seed
         jobs = [(seed, st["trees"] + i, [tuple(t) for t in tr["src"]], self.hosts_of(st["trees"] + i, tr))
